@@ -13,12 +13,14 @@ NOTE = ("Trusted: Lean 4.33 kernel; axioms propext/Classical.choice/Quot.sound o
 SRC_TIE = {
     "C01": "_trigger (both engines), CallbackWrapper.call/__call__ and CallbacksExecutor.all/async_all",
     "C02": "_activate (both engines), CallbackWrapper.call/__call__ and CallbacksExecutor.call/async_call",
-    "C03": "processing_loop (both engines)",
+    "C03": "processing_loop (both engines), Event.__call__ and StateMachine.send (put, then the loop)",
+    "C07": "Event.__call__ (the reserved keywords are stripped before the trigger is built) and the two name lists — `_event_data_kwargs` and the keys `EventData.extended_kwargs` injects — proved equal (reserved_eq_injected)",
+    "C13": "StateMachine.send and Event.__call__: every calling style is the same put-then-process (runS_send, runE_send)",
     "C04": "_activate and processing_loop (both engines), CallbacksExecutor.call/async_call",
     "C05": "_activate, _trigger and processing_loop of both engines (`async = sync with awaits`), the wrapper and executor methods of callbacks.py in their sync and async forms",
     "C06": "processing_loop (both engines): the protocol's flags `fixed` (re-check after the release) and `atomic` (no suspension point between the last emptiness test and the release) are computed from the scripts (C06_script_flags)",
     "C08": "CallbackWrapper.call/__call__ (truth value compared with the expected value) and CallbacksExecutor.all/async_all (conjunction, left to right, first failing guard stops)",
-    "C11": "_trigger (the __initial__ branch, the stale activation trigger) and _activate on the initial pseudo-transition",
+    "C11": "_trigger (the __initial__ branch, the stale activation trigger), _activate on the initial pseudo-transition, BaseEngine.start",
     "C14": "_activate (result accumulation and the unwrap rule), CallbackWrapper.call/__call__ and CallbacksExecutor.call/async_call",
 }
 
